@@ -6,8 +6,8 @@ from common import clist, cbool, cnat, cstr
 LITS = ["a", "b.c", "x-y=1", "foo"]
 PATS = ["a*", "*.c", "x-?=1", "f[op]o", "[!ab]*"]
 # operand names that need escaping in the expression text: ( ) blank backslash
-HOSTILE_LITS = ["p(q)", "x y"]
-HOSTILE_PATS = ["p(*", "x ?"]
+HOSTILE_LITS = ["p(q)", "x y", "a\\b"]
+HOSTILE_PATS = ["p(*", "x ?", "f*\\", "\\*", "a\\?b", "f[o\\]o"]
 UNIVERSE = ["a", "b.c", "x-y=1", "foo", "ab", "p(q)"]
 
 
